@@ -184,8 +184,22 @@ def run(ctx):
                        "N": ctx.rng.choice([0, 1, 100, 5000, 20000]), "blk": ctx.rng.choice([1, 100, 1000, 100000]), "ol": ctx.rng.choice([1, 64, 256, 5000]),
                        "moves": ctx.rng.next() if i % 3 else 0})
 
+    # a slew that ends exactly on a call boundary, then an immediate move before any further output (round 7 of the seeded changes,
+    # `C08-vr-stale-step-step-after-slew-end`: the engine finishes a slew lazily, at the top of the next processing loop, so between the
+    # two calls it holds a finished count-down next to a live increment)
+    for i in range(10 if ctx.quick else 120):
+        ir = ctx.rng.choice([2.0, 3.0, 1.5, 4.0, 8.0]); n = ctx.rng.choice([64, 100, 300, 1000, 37])
+        vrjobs.append({"cfg": {"ir": repr(ir), "or": "1.0", "recipe": 4, "qflags": 32}, "env": {}, "N": 60000, "blk": 20000, "ol": 2000,
+                       "boundary": (n, ir * ctx.rng.choice([.3, .45, .6, .8]), ir * ctx.rng.choice([.5, .7, .9, .35]), ctx.rng.below(3))})
+
     def vrwork(j):
         N = j["N"]; blk = max(j["blk"], N // 300 + 1); r = cr.io_ratio(j["cfg"])
+        if j.get("boundary"):
+            n, r1, r2, pre = j["boundary"]
+            ops = [cr.create_line(j["cfg"]), "limit %d" % N] + ["feed 3000 500 0"] * pre
+            ops += ["ratio %r %d" % (r1, n), "feed 30000 %d 0" % n, "ratio %r 0" % r2]
+            ops += ["feed %d %d 0" % (blk, j["ol"])] * (N // blk + 1) + ["drain %d" % j["ol"], "feed 0 100 0", "feed 0 1 0", "hash"]
+            return j, ops, cr.run_trace(exe, ops, j["env"], timeout=30)
         ol = max(j["ol"], int(N / r) // 2000 + 1)
         feeds = ["feed %d %d 0" % (blk, ol)] * (N // blk + 1)
         if j.get("moves"):
